@@ -542,7 +542,7 @@ func (fx *FnExec) loopHeader(b *ssa.BasicBlock, li *loopInfo, edges []inEdge) er
 		}
 		if !all {
 			for _, n := range sortedKeys(li.mods) {
-				if n == "$alloc" || n == "$fail" {
+				if n == "$alloc" || n == "$fail" || strings.HasPrefix(n, "L.") {
 					continue
 				}
 				if f := fx.frameFact(n, &fx.cur, byName); f != "" {
@@ -639,7 +639,7 @@ func (fx *FnExec) backEdge(from, header *ssa.BasicBlock, succIdx int) error {
 		}
 		if !all {
 			for _, n := range sortedKeys(li.mods) {
-				if n == "$alloc" || n == "$fail" {
+				if n == "$alloc" || n == "$fail" || strings.HasPrefix(n, "L.") {
 					continue
 				}
 				if f := fx.frameFact(n, &fx.cur, byName); f != "" && f != tTrue {
@@ -846,6 +846,12 @@ func (fx *FnExec) instr(in ssa.Instruction) error {
 		}
 		fx.set(x, Val{T: x.Type(), L: tv.L[off : off+n]})
 	case *ssa.IndexAddr:
+		if m, ok := fx.mslices[x.X]; ok {
+			iv := fx.val(x.Index)
+			fx.oblige("idx", "", sAnd(sLe("0", iv.one()), sLt(iv.one(), m.len)), "index in range", x.Pos())
+			fx.set(x, Val{T: x.Type(), Loc: &Loc{Kind: LMutElem, Ms: m, Idx: iv.one(), ElemT: m.et}})
+			return nil
+		}
 		if b, ok := fx.bufs[x.X]; ok {
 			iv := fx.val(x.Index)
 			fx.oblige("idx", "", sAnd(sLe("0", iv.one()), sLt(iv.one(), b.len)), "index in range", x.Pos())
@@ -897,6 +903,21 @@ func (fx *FnExec) instr(in ssa.Instruction) error {
 	case *ssa.Lookup:
 		return fx.lookup(x)
 	case *ssa.MakeSlice:
+		if mutSliceCandidate(x) {
+			n := fx.val(x.Len).one()
+			fx.oblige("makeslice", "", sLe("0", n), "make: non-negative length", x.Pos())
+			m := &mslice{name: x.Name(), len: n, et: elemOf(x.Type())}
+			for _, l := range fx.e.leaves(m.et) {
+				nm := fx.msliceLeafName(m, l.Path)
+				srt := arraySort("Int", l.Sort)
+				fx.e.heapSort[nm] = srt
+				fx.localNames[nm] = true
+				fx.heapSet(&fx.cur, nm, srt, zeroOfSort(srt))
+			}
+			fx.mslices[x] = m
+			fx.vals[x] = Val{T: x.Type(), L: []string{tFalse, n, "0"}} // placeholder: val() materializes
+			return nil
+		}
 		if isByteSlice(x.Type()) {
 			n := fx.val(x.Len).one()
 			fx.oblige("makeslice", "", sLe("0", n), "make: non-negative length", x.Pos())
@@ -944,6 +965,12 @@ func (fx *FnExec) instr(in ssa.Instruction) error {
 	case *ssa.Range:
 		fx.set(x, Val{T: x.Type(), L: []string{"0"}})
 		fx.vals[x] = Val{T: x.X.Type(), L: fx.val(x.X).L}
+		if n, srt, ok := fx.iterSeenName(x); ok {
+			// ghost: the set of keys the iteration has produced so far
+			fx.e.heapSort[n] = srt
+			fx.localNames[n] = true
+			fx.heapSet(&fx.cur, n, srt, fmt.Sprintf("((as const %s) false)", srt))
+		}
 	case *ssa.Next:
 		return fx.next(x)
 	case *ssa.If, *ssa.Jump:
@@ -1033,7 +1060,14 @@ func (fx *FnExec) unbox(payload string, t types.Type) Val {
 	}
 	for i, l := range fx.e.leaves(t) {
 		uf := smtName(fmt.Sprintf("unbox.%s.%d", typeKey(t), i))
+		isNew := !fx.c.declared[uf]
 		fx.c.declareFun(uf, []string{"Int"}, l.Sort)
+		if isNew && l.Sort == "Int" && l.T != nil {
+			// the payload of a boxed integer is a value of its type
+			if rf := rangeFact(app(uf, "p!u"), l.T); rf != tTrue {
+				fx.c.assert(fmt.Sprintf("(forall ((p!u Int)) (! %s :pattern (%s)))", rf, app(uf, "p!u")))
+			}
+		}
 		out.L = append(out.L, app(uf, payload))
 	}
 	return out
@@ -1468,6 +1502,38 @@ func (fx *FnExec) sliceOp(x *ssa.Slice) error {
 	return nil
 }
 
+// iterSeenName: the ghost "keys produced so far" of a map iteration (maps with single-leaf keys only)
+func (fx *FnExec) iterSeenName(r *ssa.Range) (name, sort string, ok bool) {
+	m, isMap := under(r.X.Type()).(*types.Map)
+	if !isMap {
+		return "", "", false
+	}
+	ls := fx.e.leaves(m.Key())
+	if len(ls) != 1 {
+		return "", "", false
+	}
+	return "L.iter." + r.Name(), arraySort(ls[0].Sort, "Bool"), true
+}
+
+// mapUpdatedInFunc: does the function itself insert into or delete from a map of this type?
+func (fx *FnExec) mapUpdatedInFunc(t types.Type) bool {
+	for _, b := range fx.fn.Blocks {
+		for _, in := range b.Instrs {
+			switch x := in.(type) {
+			case *ssa.MapUpdate:
+				if types.Identical(x.Map.Type(), t) {
+					return true
+				}
+			case *ssa.Call:
+				if bi, ok := x.Call.Value.(*ssa.Builtin); ok && bi.Name() == "delete" && types.Identical(x.Call.Args[0].Type(), t) {
+					return true
+				}
+			}
+		}
+	}
+	return false
+}
+
 func (fx *FnExec) next(x *ssa.Next) error {
 	// (ok, k, v) of a map or string iteration: unordered enumeration, modelled as an arbitrary present key
 	r := fx.freshVal(x.Type(), "next")
@@ -1484,6 +1550,16 @@ func (fx *FnExec) next(x *ssa.Next) error {
 			if len(kv.L) == fx.e.nleaves(m.Key()) {
 				k := fx.mapKeyTerm(m.Key(), kv)
 				dom := fx.heapVar(&fx.cur, names[0], "")
+				if n, srt, ok := fx.iterSeenName(rng); ok && !fx.mapUpdatedInFunc(rng.X.Type()) {
+					// every key is produced exactly once; the iteration ends when all have been
+					seen := fx.heapVar(&fx.cur, n, srt)
+					fx.c.nfresh++
+					q := fmt.Sprintf("q!k!%d", fx.c.nfresh)
+					ks := strings.TrimSuffix(strings.TrimPrefix(srt, "(Array "), " Bool)")
+					fx.assume(sImp(okT, sNot(sSel(seen, k))))
+					fx.assume(sImp(sNot(okT), fmt.Sprintf("(forall ((%s %s)) (! (=> (select %s %s) (select %s %s)) :pattern ((select %s %s))))", q, ks, sSel(dom, mv.one()), q, seen, q, sSel(dom, mv.one()), q)))
+					fx.heapSet(&fx.cur, n, srt, sIte(okT, sSto(seen, k, tTrue), seen))
+				}
 				facts := []string{sSel(sSel(dom, mv.one()), k), fx.wellTyped(kv, &fx.cur)}
 				if len(vv.L) == fx.e.nleaves(m.Elem()) {
 					for j := range vv.L {
